@@ -162,7 +162,9 @@ def build(rng, nfc, miu, agf, profile):
                     k = rng.random()
                     if k < 0.4:
                         sn = b"urn:nfc:sn:" + bytes(rng.randrange(97, 123) for _ in range(rng.choice([2, 20, 100, 140])))
-                        s.send_queue.append(pdu.Connect(s.peer, a, miu=rng.choice([128, 500, 2175]), rw=rng.randrange(1, 16), sn=sn))
+                        sn = rng.choice([sn, sn, None, b""])       # connect by address / by (empty) name
+                        s.send_queue.append(pdu.Connect(s.peer, a, miu=rng.choice([128, 500, 2175]),
+                                                        rw=rng.choice([0, 1, 2, 15]), sn=sn))
                     elif k < 0.6:
                         s.send_queue.append(pdu.ConnectionComplete(s.peer, a, miu=rng.choice([128, 500]), rw=rng.randrange(1, 16)))
                     elif k < 0.8:
